@@ -116,6 +116,9 @@ fn make_field(ts: &TypeSystem, parent: &str, fd: &FieldDef) -> Field {
             let path = ctx.ctx.path_node.map(|p| p.to_string()).unwrap_or_default();
             let received = received_args(&ctx);
             env.log.push(Ek::Start, &path, &parent, &fd.name, Some(received.clone()), "");
+            if env.record_views {
+                crate::s1::record_views_json(ctx.ctx, &env, &path, &parent, &fd.name);
+            }
             if let Some(s) = &env.sched {
                 s.gate(format!("r:{path}")).await;
             }
